@@ -1,4 +1,5 @@
 import BFL.Proofs.LifecycleHist
+import BFL.Proofs.LifecycleComm
 /-
 C09 — filter lifecycle: ordered epochs, honoured commands, guaranteed termination.
 
@@ -221,6 +222,23 @@ theorem boot_failed_inert (cfg : Cfg) (as : List Act) :
   generalize exec cfg St.bootFailed as = s at *
   simp only [step, ctl, hd]
   cases hj' : s.joined <;> simp_all
+
+/-! ## Why scheduling at the hook points loses nothing
+
+Between two flag reads of one loop test the implementation offers no place to hold the thread.
+A command issued there commutes with the thread's access unless it writes the very flag being
+read (`Indep`), so it can be moved across the silent accesses to the neighbouring place where
+the harness can issue it; the state — including the whole history — is the same. -/
+
+theorem command_commutes_with_silent_access (cfg : Cfg) (s : St) (x : Cmd) (c : Bool)
+    (h : Indep s.pc x) :
+    step cfg (step cfg s (Act.c x)) (Act.t c) = step cfg (step cfg s (Act.t c)) (Act.c x) :=
+  cmd_commutes cfg s x c h
+
+theorem reboot_second_store_commutes (cfg : Cfg) (s : St) (c : Bool)
+    (h : s.pc = PC.zero ∨ s.pc = PC.incr ∨ s.pc = PC.inB ∨ s.pc = PC.inC ∨ s.pc = PC.outC ∨ s.pc = PC.outD) :
+    step cfg (step cfg s Act.fin) (Act.t c) = step cfg (step cfg s (Act.t c)) Act.fin :=
+  fin_commutes cfg s c h
 
 /-! ## The repaired defect (fix 56cf611), kept as documentation
 
